@@ -14,7 +14,8 @@ EXPLANATION = (
     "delivery over histories."
     " (f) Only an expired PTR or an emptied SRV vector puts an instance into the removal set, and the eviction results reach the notifiers whole (no truncating adapter)."
     " (g) The host names evict_expired_addr reports are the expired records' own names. (h) Expiry times only move forward outside reset_ttl. (i) The walk over the PTR names in evict_expired_services removes no key from DnsCache.srv, so an expired SRV is reported under every type and subtype that lists the instance."
-    " (j) ServiceEvent sends are lossless.")
+    " (j) ServiceEvent sends are lossless."
+    " (k) exec_command_verify reaches service_verify_queries on every path. (l) Every answer of a response reaches add_or_update (shared with C03i).")
 UNDECIDED = ["time of delivery of ServiceRemoved relative to the TTL", "'not before' (no spurious removal) over histories",
              "duplicates across histories"]
 
